@@ -257,6 +257,8 @@ pub fn get_sub_entity_query(
     t: usize,
     is_unique_value: bool,
 ) -> String {
+    //table alias: quoted because the name can be a SQL keyword, and made unique for this nesting level
+    let field_name = &format!("\"{}${}\"", field_name, t);
     let mut q = String::new();
     tab(&mut q, t);
     q.push_str("SELECT \n");
@@ -315,6 +317,8 @@ pub fn get_sub_system_entity_query(
     t: usize,
     is_unique_value: bool,
 ) -> String {
+    //table alias: quoted because the name can be a SQL keyword, and made unique for this nesting level
+    let field_name = &format!("\"{}${}\"", field_name, t);
     let mut q = String::new();
     tab(&mut q, t);
     q.push_str("SELECT \n");
